@@ -64,7 +64,13 @@ def gen_tree_case(rng):
         flat.append(('bind', '', reg0['_selector'], cls0[0], b2.stmts[0]['val']))
       lines = b2.text().rstrip('\n').split('\n')
     fin = rng.random() < 0.6
-    ops.append({'op': 'parsefiles', 'skip': {'k': 'no'}, 'files': [['top.gin', stmts]], 'bindings': b2.stmts,
+    skip = {'k': 'no'}
+    if rng.random() < 0.4 and not (fault and fault[2]):
+      # skip_unknown must reach the extra bindings as well as the files
+      skip = rng.choice([{'k': 'all'}, {'k': 'names', 'v': ['zz.q'], '_type': rng.choice(['list', 'tuple', 'set'])}])
+      S.add_binding(b2, 'a', 'zz.q', 'x', rng.randint(0, 9))
+      lines = b2.text().rstrip('\n').split('\n')
+    ops.append({'op': 'parsefiles', 'skip': skip, 'files': [['top.gin', stmts]], 'bindings': b2.stmts,
                 'finalize': fin, '_binding_lines': lines, '_files': files})
   ops += [{'op': 'config'}, {'op': 'imports'}, {'op': 'locked'}]
   return {'dom': 'gin', 'ops': ops, '_flat_text': flat_text(flat), '_kind': 'tree', '_nregs': len(regs),
